@@ -25,7 +25,11 @@ func cmdBackground(p *lang.Process) (err error) {
 	} else {
 		block, err = p.Parameters.Block(0)
 		if err != nil {
-			return mkbg(p)
+			err = mkbg(p)
+			// `bg` is exempt from the usual notification in destroyProcess, so
+			// whoever waits for us has to be released here too (as below)
+			p.WaitForTermination <- false
+			return err
 		}
 	}
 
